@@ -2710,7 +2710,7 @@ def rest_array_from_rest_list(
             rest_info += (fifths, mode)
 
         if time_signature_map is not None:
-            beats, beat_type = time_signature_map(rest.start.t)
+            beats, beat_type, _ = time_signature_map(rest.start.t)
 
             rest_info += (beats, beat_type)
 
